@@ -519,8 +519,16 @@ func run(e *vlib.Env) vlib.Result {
 		go func(p int) {
 			defer pwg.Done()
 			for i := p; i < len(srcs); i += npub {
-				if err := ps.Publish(srcs[i].topic, message.NewMessage(srcs[i].uuid, []byte("payload-of-"+srcs[i].uuid))); err != nil {
+				m := message.NewMessage(srcs[i].uuid, []byte("payload-of-"+srcs[i].uuid))
+				if err := ps.Publish(srcs[i].topic, m); err != nil {
 					srcs[i].err = err.Error()
+				}
+				if sh.Scribble {
+					// the caller's object belongs to the caller again once Publish has returned (GoChannel publishes copies):
+					// re-filling it for something else must not change what was published
+					m.UUID = "not-published/" + srcs[i].uuid
+					m.Metadata.Set("edited-after-publish", "1")
+					m.Payload = []byte("edited-after-publish")
 				}
 				w.events.Add(1)
 			}
